@@ -574,6 +574,12 @@ func checkModel(m *ref.SpecModel, text string, toks []ref.Tok) error {
 				return fmt.Errorf("rule %s of the typed tree is not a non-terminal of the derived grammar\nspecification:\n%s", name, text)
 			}
 		}
+		// every token the tree declares is a terminal of the derived grammar, used or not
+		for _, d := range got.Decls {
+			if (d.Kind == "strtoken" || d.Kind == "regextoken") && !sp.Grammar.Terminals.Contains(grammar.Terminal(d.Name)) {
+				return fmt.Errorf("token %s is declared in the typed tree, but it is no terminal of the grammar emerge derives\nspecification:\n%s\nterminals: %v", d.Name, text, sp.Grammar.Terminals)
+			}
+		}
 		// structure: one non-terminal per rule name and one per distinct bracketed operand and operator in the tree
 		// (two occurrences of the same operand under the same operator are the same synthesised rule)
 		// (counted on the written specification: the typed tree does not keep parentheses)
